@@ -81,13 +81,47 @@ impl FieldDef {
         _ => SerdeAsSeparator::Comma,
       };
 
-      self.serde_as_attr = Some(SerdeAsFieldAttr::SeparatedList {
-        separator,
-        optional: self.rust_type.nullable,
+      self.serde_as_attr = Some(match Self::numeric_item_type(&self.rust_type.base_type) {
+        // the `oas3_gen_support::StringWith*Separator` aliases fix the item type to `String`;
+        // numeric and boolean items need the separator adapter instantiated at their own type
+        Some(item) => {
+          let format = match separator {
+            SerdeAsSeparator::Comma => "serde_with::formats::CommaSeparator",
+            SerdeAsSeparator::Space => "serde_with::formats::SpaceSeparator",
+            SerdeAsSeparator::Pipe => "oas3_gen_support::PipeSeparator",
+          };
+          SerdeAsFieldAttr::CustomOverride {
+            custom_type: format!("serde_with::StringWithSeparator<{format}, {item}>"),
+            optional: self.rust_type.nullable,
+            is_array: false,
+          }
+        }
+        None => SerdeAsFieldAttr::SeparatedList {
+          separator,
+          optional: self.rust_type.nullable,
+        },
       });
     }
 
     self
+  }
+
+  fn numeric_item_type(base: &RustPrimitive) -> Option<String> {
+    matches!(
+      base,
+      RustPrimitive::I8
+        | RustPrimitive::I16
+        | RustPrimitive::I32
+        | RustPrimitive::I64
+        | RustPrimitive::U8
+        | RustPrimitive::U16
+        | RustPrimitive::U32
+        | RustPrimitive::U64
+        | RustPrimitive::F32
+        | RustPrimitive::F64
+        | RustPrimitive::Bool
+    )
+    .then(|| base.to_string())
   }
 
   #[must_use]
